@@ -1,7 +1,7 @@
 """C04 - slicing returns exactly the selected characters and styles, closed at the end."""
 from .. import obs as O
 from ..gen import gen_bound, gen_range
-from .common import Contract, ansi_values, history, run_cases, tier_sizes, safe_obs, is_ansi
+from .common import Contract, ansi_values, history, run_cases, tier_sizes, safe_obs, is_ansi, esc_seam_values
 
 PROP = 'C04'
 RULE = ('case = one s[i], s[i:j], clip(a,b) or iteration on a reachable value, bounds aimed at change points '
@@ -179,6 +179,9 @@ def drive(ctx, mon, tier, only_case=None):
         profile = 'mixed' if rng.random() < 0.3 else 'wf'
         history(L, rng, ex, rng.randint(1, sz['nops']), sz['maxlen'], profile, WEIGHTS, esc=rng.random() < 0.12)
         vals = ansi_values(L, ex)
+        if rng.random() < 0.2:
+            with mon.quiet():
+                vals = vals + esc_seam_values(L, rng, 2)
         for v in vals[-8:]:
             o = safe_obs(mon, v)
             if o is None:
